@@ -1,4 +1,4 @@
-//! Server-level runner: `<u|t> <edns> <catalog> <keys> <requesthex>` -> `none` | `resp ...` | `panic`.
+//! Server-level runner: `<u|t|U|T> <edns> <catalog> <keys> <requesthex>` (U/T: single-entry catalog served through SingleZoneCatalog) -> `none` | `resp ...` | `panic`.
 use quandary::server::{ReceivedInfo, Response, Transport};
 use qv_harness::srvcase::*;
 use qv_harness::*;
@@ -7,12 +7,18 @@ use std::net::Ipv4Addr;
 fn main() {
     let mut resp_buf = vec![0u8; 65535];
     run_lines(|f| {
-        let transport = if f[0] == "t" { Transport::Tcp } else { Transport::Udp };
+        let transport = if f[0].eq_ignore_ascii_case("t") { Transport::Tcp } else { Transport::Udp };
+        // an upper-case transport letter: serve the (single-entry) catalog through SingleZoneCatalog
+        let single = if f[0] == "T" || f[0] == "U" { build_server_single(f[1].parse().unwrap(), f[2], f[3]) } else { None };
         let edns: u16 = f[1].parse().unwrap();
         let server = build_server(edns, f[2], f[3]);
         let req = unhex(f[4]);
         let info = ReceivedInfo::new(Ipv4Addr::LOCALHOST.into(), transport);
-        match server.handle_message(&req, info, &mut resp_buf) {
+        let r = match &single {
+            Some(s1) => s1.handle_message(&req, info, &mut resp_buf),
+            None => server.handle_message(&req, info, &mut resp_buf),
+        };
+        match r {
             Response::None => "none".to_string(),
             Response::Single(n) => render(&resp_buf[..n]),
         }
